@@ -434,35 +434,44 @@ func RunAllFail(fn *ssa.Function, guards []*Guard, extra map[ssa.Value]Abs, nonE
 	return len(insts)
 }
 
-// BackEdges lists the back edges (from, to) of fn.
+// BackEdges lists the loops of fn as back edges (from, to), one per loop header: a loop with several latches
+// (`continue`, or `if c { x = y }` at the end of the body once go/ssa drops the empty join block) is one loop, and
+// LoopBlocks returns its whole body whichever of its latches is named.
 func BackEdges(fn *ssa.Function) [][2]*ssa.BasicBlock {
 	var out [][2]*ssa.BasicBlock
 	for _, b := range fn.Blocks {
 		for _, p := range b.Preds {
 			if b.Dominates(p) {
 				out = append(out, [2]*ssa.BasicBlock{p, b})
+				break
 			}
 		}
 	}
 	return out
 }
 
-// LoopBlocks returns the natural loop of back edge p->h.
+// LoopBlocks returns the loop with header h: the union of the natural loops of all back edges into h (p names one
+// of its latches and is kept for the callers' convenience).
 func LoopBlocks(p, h *ssa.BasicBlock) map[*ssa.BasicBlock]bool {
 	body := map[*ssa.BasicBlock]bool{h: true}
 	var stack []*ssa.BasicBlock
-	if !body[p] {
-		body[p] = true
-		stack = append(stack, p)
+	push := func(x *ssa.BasicBlock) {
+		if !body[x] {
+			body[x] = true
+			stack = append(stack, x)
+		}
+	}
+	push(p)
+	for _, q := range h.Preds {
+		if h.Dominates(q) {
+			push(q)
+		}
 	}
 	for len(stack) > 0 {
 		x := stack[len(stack)-1]
 		stack = stack[:len(stack)-1]
 		for _, q := range x.Preds {
-			if !body[q] {
-				body[q] = true
-				stack = append(stack, q)
-			}
+			push(q)
 		}
 	}
 	return body
